@@ -322,3 +322,22 @@ func NodeInit(ni *node_info.NodeInfo) string {
 		ResOf(ni.Allocatable).Term(), ResOf(ni.Idle).Term(), ResOf(ni.Used).Term(), ResOf(ni.Releasing).Term(),
 		u.Z(ni.GetNumberOfGPUsInNode()), u.Z(ni.MemoryOfEveryGpuOnNode))
 }
+
+// NodeFullTerm renders a complete model node (books, pods, group maps, marks) of a real NodeInfo.
+func NodeFullTerm(ids *Ids, ni *node_info.NodeInfo, pods string) string {
+	var marks []int
+	for g, v := range ni.ReleasingSharedGPUs {
+		if v {
+			marks = append(marks, ids.Of("g:"+g))
+		}
+	}
+	sort.Ints(marks)
+	ms := make([]string, len(marks))
+	for i, m := range marks {
+		ms[i] = u.Pair(u.Pos(m), "tt")
+	}
+	return fmt.Sprintf("(mkNode %s %s %s %s %s %s %s %s %s %s %s)",
+		ResOf(ni.Allocatable).Term(), ResOf(ni.Idle).Term(), ResOf(ni.Used).Term(), ResOf(ni.Releasing).Term(),
+		u.Z(ni.GetNumberOfGPUsInNode()), u.Z(ni.MemoryOfEveryGpuOnNode), pods,
+		zmap(ids, ni.UsedSharedGPUsMemory), zmap(ids, ni.AllocatedSharedGPUsMemory), zmap(ids, ni.ReleasingSharedGPUsMemory), u.List(ms))
+}
